@@ -165,6 +165,28 @@ PROPS = {
         "explanation": "C07 theorems: IP window inside the first mapping containing IP, containing IP, ≤ 128 bytes to either side, clipped exactly; memory-list layout "
                        "(count + descriptors in registration order); registration completeness. Faithfulness of the bytes rests on C17.",
     },
+    "C14": {
+        "rule": "BuildId::read_from_module / SoName::read_from_module (slice mode, each under catch_unwind) on: random byte strings of 0 … 200 bytes; "
+                "structure-aware corruptions of the crate's small 64-bit ELF and of generated 32-/64-bit, little-/big-endian images (every header, "
+                "program-header, section-header, note and dynamic field set to 0, 1, max, max-1, the image size ± 1, offsets at/over the end; "
+                "truncations at every structure boundary; class / data bytes flipped); and ELF files installed on the machine (60 quick / all, "
+                "about 1900, thorough), for which `readelf -n -d` is the independent reader. Distinct = (class+endianness, build-id strategy or "
+                "error chain, soname strategy or error chain, size bucket).",
+        "expected_tags": ["kind.file", "class.64", "class.32", "endian.be", "header.err", "buildid.note", "buildid.section", "buildid.texthash", "buildid.err",
+                          "soname.phdr", "soname.section", "soname.err"],
+        "theorem_namespace": "Elf.",
+        "extra_theorems": ["Elf.noteLoop_eq_find", "Elf.ptNoteLoop_eq", "Elf.dynCollect_eq", "Elf.foldl_dynUpd", "Elf.rdInt_lt", "Elf.memRead_ok", "Elf.parseHeader_err"],
+        "trusted_base": ["goblin 0.9.3 / scroll 0.12 parsing rules as transcribed in Model/Elf.lean (header, program/section headers, Dyn, notes) — "
+                         "tied to the real crates by the correspondence runs only",
+                         "core::str::lossy (Utf8Chunks) transcribed case by case", "binutils readelf as the independent reader on installed files"],
+        "assumptions": ["slice mode (ProcessMemory::Slice): reading from a live process differs only in `absolute()` and in which of offset/address is used; "
+                        "that mode is exercised by the live module-list check (C08), not by these theorems",
+                        "the agreement theorems are stated over the parsed structure (what an independent reader lists), not over a serialiser of ELF files: partial"],
+        "explanation": "C14 theorems over the Lean model of module_reader.rs + the goblin rules it relies on: totality (value or one of three error variants; "
+                       "every loop structurally bounded by the window read; unchecked additions stay below 2^64), the build id equals the descriptor of "
+                       "the first GNU/NT_GNU_BUILD_ID note of the PT_NOTE segments as an independent note lister finds it, the fall-back id is 16 bytes, "
+                       "the SONAME equals the string at the last DT_SONAME offset of the dynamic table as an independent lister finds it.",
+    },
     "C17": {
         "rule": "live: MemReader::for_virtual_mem / for_file / for_ptrace (target ptrace-stopped) on ranges inside, ending exactly at, and crossing the end of "
                 "pattern regions (address-derived fill) followed by an unmapped page, a PROT_NONE page or another readable page; lengths 1 … 70000 dense near "
